@@ -1,7 +1,8 @@
 (* C18 at the model level: the full correctness statement of the Go-faithful model of
    Canonicalize ([T2], not proved in full), the cases proved, and the F04 / O2 witnesses on
    the as-found variants. *)
-From CV Require Import Value.ValueEq Value.EqualM Value.CanonSpec Value.CanonM Value.EqualProofs.
+From CV Require Import Value.ValueEq Value.EqualM Value.CanonSpec Value.CanonM Value.EqualProofs Value.Den.
+From CV Require Import Core.ReaderFacts.
 Open Scope Z_scope.
 
 Definition all_cfixed (fx : cfix) : Prop :=
@@ -13,8 +14,8 @@ Definition all_cfixed (fx : cfix) : Prop :=
    return bytes (the converse direction is part of the statement) *)
 Definition canon_m_correct_statement : Prop :=
   forall fuel c fx m rl s v,
-    all_cfixed fx -> far_ok m ->
-    denotes c (cx_rd fx) m 0 [] s v ->
+    all_cfixed fx ->
+    cfg_strict c = true -> msg_ok m -> den true m 0 [] s v ->
     forall r rl', canonicalize c fx fuel m rl s = (r, rl') ->
     match r with
     | KOk bs => canon v = Some bs
